@@ -5,7 +5,7 @@ cd /repo || exit 2
 if [ -n "$(git status --porcelain --untracked-files=no)" ]; then echo "/repo not clean"; exit 2; fi
 git apply "$d/patch.diff" || { echo "patch does not apply"; exit 2; }
 cd /verif && VERIF_DIR=/tmp/seedrun-$$ true
-out=$(cd /verif && ./check "$p" "$tier" 2>&1); code=$?
+out=$(cd /verif && VERIF_OUT_DIR=/tmp/seedrun ./check "$p" "$tier" 2>&1); code=$?
 git -C /repo checkout -- .
 echo "$out" | grep -E "VIOLATION|signature|KNOWN|INCONCLUSIVE|BUILD" | head -8
 echo "$(basename $d) vs $p: exit=$code"
